@@ -262,12 +262,12 @@ def c01(tier, repo=None):
         fams = [("p3", consts("pregel", 3, 3, 1, 2, maxchoice=(3,)), {}),
                 ("p2m", consts("pregel", 2, 3, 1, 1, multi=True, maxchoice=(0, 2), ends=3), {}),
                 # two branches (also on the same node) with fan-out edges: sampled, the exhaustive family has 225 k scenarios
-                ("p3bb", consts("pregel", 3, 3, 2, 1, multi=True, maxchoice=(4,), ends=3), {"simulate": "num=40000", "depth": 16, "seed": vlib.SEED, "workers": 1})]
+                ("p3bb", consts("pregel", 3, 3, 2, 1, multi=True, maxchoice=(4,), ends=3), {"simulate": "num=1000000", "depth": 16, "seed": vlib.SEED, "workers": 1, "sim_seconds": 25, "keep": 15000})]
         models = ["MC_EinoRun_pregel2.cfg"]
     else:
         fams = [("p3", consts("pregel", 3, 4, 1, 2, maxchoice=(4,)), {"timeout": 1800}),
                 ("p2m", consts("pregel", 2, 4, 1, 2, multi=True, maxchoice=(0, 2), ends=3), {}),
-                ("p4s", consts("pregel", 4, 7, 2, 2, multi=True, maxchoice=(5,), ends=3), {"simulate": "num=200000", "depth": 18, "seed": vlib.SEED, "workers": 1})]
+                ("p4s", consts("pregel", 4, 7, 2, 2, multi=True, maxchoice=(5,), ends=3), {"simulate": "num=10000000", "depth": 18, "seed": vlib.SEED, "workers": 1, "sim_seconds": 150, "keep": 60000})]
         models = ["MC_EinoRun_pregel2.cfg", "MC_EinoRun_pregel3.cfg"]
     def chains(rnd):
         scs, run = engine.gen_chains("ChainGen_q.cfg" if tier == "quick" else "ChainGen_t.cfg")
@@ -298,8 +298,8 @@ def c02(tier, repo=None):
     else:
         fams = [("d3", consts("dag", 3, 5, 2, 0, multi=True), {"timeout": 1800}),
                 ("w3", consts("wf", 3, 5, 2, 0, multi=True), {"timeout": 1800}),
-                ("d4s", consts("dag", 4, 7, 2, 0, multi=True, ends=3), {"simulate": "num=200000", "depth": 18, "seed": vlib.SEED, "workers": 1}),
-                ("w4s", consts("wf", 4, 7, 2, 0, multi=True, ends=3), {"simulate": "num=200000", "depth": 18, "seed": vlib.SEED, "workers": 1}),
+                ("d4s", consts("dag", 4, 7, 2, 0, multi=True, ends=3), {"simulate": "num=10000000", "depth": 18, "seed": vlib.SEED, "workers": 1, "sim_seconds": 150, "keep": 60000}),
+                ("w4s", consts("wf", 4, 7, 2, 0, multi=True, ends=3), {"simulate": "num=10000000", "depth": 18, "seed": vlib.SEED, "workers": 1, "sim_seconds": 150, "keep": 60000}),
                 ("d3o", consts("dag", 3, 4, 1, 0, orphans=True), {})]
         models = ["MC_EinoRun_dag3.cfg", "MC_EinoRun_wf3.cfg"]
         limit = 250000
@@ -319,8 +319,8 @@ def _intr_families(tier):
             ("ip3", consts("pregel", 3, 3, 1, 1, marks=2, rerun=True, maxchoice=(3,)), {"timeout": 1800}),
             ("id3", consts("dag", 3, 4, 1, 0, marks=2, rerun=True, multi=True), {"timeout": 1800}),
             ("iw3", consts("wf", 3, 4, 1, 0, marks=2, rerun=True), {"timeout": 1800}),
-            ("ip4s", consts("pregel", 4, 6, 2, 2, marks=3, rerun=True, multi=True, maxchoice=(4,)), {"simulate": "num=150000", "depth": 18, "seed": vlib.SEED, "workers": 1}),
-            ("id4s", consts("dag", 4, 7, 2, 0, marks=3, rerun=True, multi=True), {"simulate": "num=150000", "depth": 18, "seed": vlib.SEED, "workers": 1})], 300000
+            ("ip4s", consts("pregel", 4, 6, 2, 2, marks=2, rerun=True, multi=True, maxchoice=(4,)), {"simulate": "num=10000000", "depth": 18, "seed": vlib.SEED, "workers": 1, "sim_seconds": 150, "keep": 60000}),
+            ("id4s", consts("dag", 4, 7, 2, 0, marks=2, rerun=True, multi=True), {"simulate": "num=10000000", "depth": 18, "seed": vlib.SEED, "workers": 1, "sim_seconds": 150, "keep": 60000})], 200000
 
 
 def c05(tier, repo=None):
@@ -405,10 +405,11 @@ def c13(tier, repo=None):
                 ("fw3", consts("wf", 3, 4, 0, 0, fail=True), {})]
         limit = 30000
     else:
-        fams = [("fp3", consts("pregel", 3, 4, 1, 2, fail=True, multi=True, maxchoice=(3,)), {"timeout": 1800}),
+        fams = [("fp3", consts("pregel", 3, 4, 1, 1, fail=True, maxchoice=(3,)), {"timeout": 1800}),
+                ("fp2m", consts("pregel", 2, 3, 1, 2, fail=True, multi=True, maxchoice=(3,), ends=3), {"timeout": 1800}),
                 ("fd3", consts("dag", 3, 4, 1, 0, fail=True, multi=True), {"timeout": 1800}),
                 ("fw3", consts("wf", 3, 4, 1, 0, fail=True), {"timeout": 1800})]
-        limit = 300000
+        limit = 200000
     return run_engine_check("C13", tier, model_cfgs=["MC_EinoRun_fail2.cfg"], families=fams, decorate_kw={"fail_variants": True},
                             nontrivial=nontrivial, nest_frac=0.15, limit=limit, repo=repo, extra_part=c13_tools_part,
                             assumptions=["a failing side branch of an eager (workflow) run that does not feed END may go unreported when END is assembled first (not judged)"])
@@ -427,7 +428,7 @@ def c11(tier, repo=None):
         fams = [("sd3", consts("dag", 3, 4, 1, 0, marks=2, rerun=True, multi=True), {"timeout": 1800}),
                 ("sw3", consts("wf", 3, 4, 1, 0, marks=2, rerun=True), {"timeout": 1800}),
                 ("sp3", consts("pregel", 3, 3, 1, 1, marks=2, rerun=True, maxchoice=(3,)), {"timeout": 1800}),
-                ("sd4s", consts("dag", 4, 7, 2, 0, marks=2, rerun=True, multi=True), {"simulate": "num=150000", "depth": 18, "seed": vlib.SEED, "workers": 1})]
+                ("sd4s", consts("dag", 4, 7, 2, 0, marks=2, rerun=True, multi=True), {"simulate": "num=10000000", "depth": 18, "seed": vlib.SEED, "workers": 1, "sim_seconds": 150, "keep": 60000})]
         limit = 200000
     return run_engine_check("C11", tier, model_cfgs=["MC_EinoRun_pregel2.cfg"], families=fams, decorate_kw={"state_variants": True},
                             nontrivial=nontrivial, nest_frac=0.15, nest_marks=True, limit=limit, repo=repo,
